@@ -635,6 +635,8 @@ func (s *scope) createInstance(descriptor *Descriptor) (any, error) {
 				regDescriptor = s.rootProvider.findDescriptor(reg.Type, regKey)
 			} else if regDescriptor == descriptor {
 				primaryService = value
+			} else if !s.rootProvider.isRegistered(regDescriptor) {
+				continue // this output's registration was removed
 			}
 
 			if regDescriptor == nil {
@@ -695,6 +697,10 @@ func (s *scope) createInstance(descriptor *Descriptor) (any, error) {
 				}
 			}
 
+			if serviceDescriptor != descriptor && !s.rootProvider.isRegistered(serviceDescriptor) {
+				continue // this output's registration was removed
+			}
+
 			key := instanceKey{
 				Type:  ret.Type,
 				Key:   serviceDescriptor.Key,
@@ -734,7 +740,7 @@ func (s *scope) createInstance(descriptor *Descriptor) (any, error) {
 	// A registration with several aliases is one service: the same instance
 	// answers to every alias, and it is owned (and later disposed) once.
 	for _, sibling := range descriptor.siblings {
-		if sibling != descriptor {
+		if sibling != descriptor && s.rootProvider.isRegistered(sibling) {
 			s.shareInstance(sibling, sibling.identity(), instance)
 		}
 	}
